@@ -108,7 +108,8 @@ def r3_fallback(ctx):
         n += 1
         v = o.value
         is_invalid = any(s[0] == 'agg' and s[3] == 'InvalidMove' for s in subterms(v))
-        found_none = [c for c in o.conds if c[0][0] == 'discr' and c[0][1][0] == 'call' and c[0][1][1].endswith('::find') and c[1] == 0]
+        found_none = [c for c in o.conds if c[0][0] == 'discr' and c[0][1][0] == 'call' and (c[0][1][1].endswith('::find') or finder_summary(facts, c[0][1][1]))
+                      and (c[1] == 0 or (isinstance(c[1], tuple) and c[1][0] == 'not' and 1 in c[1][1]))]
         searched = any(e[0] == 'call' and e[1] == sel for e in o.events)
         if is_invalid:
             ctx.ob(rule, name, 'returns InvalidMove when the book move is not legal', False,
@@ -121,7 +122,7 @@ def r3_fallback(ctx):
             ctx.ob(rule, name, 'no book continuation -> search', True)
         else:
             # returns the found legal move
-            src = [s for s in subterms(v) if s[0] == 'call' and s[1].endswith('::find')]
+            src = [s for s in subterms(v) if s[0] == 'call' and (s[1].endswith('::find') or finder_summary(facts, s[1]))]
             gen = any(e[0] == 'call' and e[1].endswith('generate_moves_and_lazily_update_chess_move_effects') for e in o.events)
             ctx.ob(rule, name, 'book move returned is one of the generated legal moves', bool(src) and gen, found=show(v)[:200],
                    expected='candidates.iter().find(...)')
@@ -136,6 +137,16 @@ def r3_fallback(ctx):
         found = {'compared with': atoms, 'table': {str(k): v for k, v in table.items()}}
         okp = okrows and table == AND_TABLE and 'from_square' in atoms.get('from_square', '') and 'to_square' in atoms.get('to_square', '') \
             and 'from_square' not in atoms.get('to_square', '')
+    if not fc:
+        calls = {(e[1], tuple(e[2])) for o in outs for e in find_events(facts, o) if finder_summary(facts, e[1])}
+        if len(calls) == 1:
+            fname, fargs = next(iter(calls))
+            fs = finder_summary(facts, fname)
+            ctx.touch(fname)
+            ops = {k: show(fargs[i_ - 1]) for k, i_ in fs['params'].items()}
+            found = {'helper': fname, 'compared with': ops, 'table': {str(k): v for k, v in fs['table'].items()}}
+            okp = fs['table'] == AND_TABLE and 'from_square' in ops.get('from_square', '') and 'to_square' in ops.get('to_square', '') \
+                and 'from_square' not in ops.get('to_square', '')
     ctx.ob(rule, name, 'book move matched on both origin and destination', okp, found=found, expected='m.from_square() == from && m.to_square() == to')
 
 
